@@ -123,6 +123,13 @@ def connectAll (cfg : Cfg) (reg : List Entry) (dflt : Option Str) : List Str →
   | [], _ => []
   | h :: rest, i => connect cfg reg dflt h i :: connectAll cfg reg dflt rest (i + 1)
 
+/-- some word names a transport: rcmd_module_register has then put a module into rcmd_module_list
+    (whether or not a host entry was created), so rcmd_init finds something to initialise -/
+def anyTyped (words : List Word) : Bool :=
+  words.any fun w => match splitWord w.text with
+    | .ok (some _) _ _ => true
+    | _ => false
+
 /-- the whole run: words in command-line order, then the default, then one connection per target -/
 def run (cfg : Cfg) (words : List Word) (targets : List Str) : Outcome :=
   match processWords cfg words [] with
@@ -134,7 +141,7 @@ def run (cfg : Cfg) (words : List Word) (targets : List Str) : Outcome :=
       if cfg.loaded.contains d then .lines (connectAll cfg reg dflt targets 0) else .fatal
     | none =>
       -- no default: rcmd_init fails when no module was registered at all
-      if reg.any (·.rtype.isSome) then .lines (connectAll cfg reg none targets 0) else .fatal
+      if anyTyped words then .lines (connectAll cfg reg none targets 0) else .fatal
 
 /-- opt.c builds the command by joining the remote argv with single blanks -/
 def joinCmd : List Str → Str
